@@ -8,6 +8,12 @@ package c12
 // switch with tag, value functions with parameters and one result (inlined by the compiler, no recursion),
 // bondgo.IOWrite/IORead and, with -mpm, `go f()` workers (one more processor each) and channel
 // producers. Every routine ends in an endless loop that keeps writing.
+//
+// Round 4 (shapes reported by a reader of pkg/bondgo): the other spellings of an integer literal (0x1F, 0b101,
+// 07 and, in a small share of the programs, legacy octal 017), break inside a switch clause, value functions
+// called as statements and (a small share) a function with a side effect called as a statement, 3…8 inputs
+// and 3…5 outputs in main (nine or more inputs only in the few programs drawn for the recorded termination
+// finding), Make calls that do not follow the declaration order, `go f(a, b)` with two by-value arguments.
 
 import (
 	"fmt"
@@ -48,6 +54,11 @@ type pgen struct {
 	funcs  []gfunc
 	inLoop int
 	labels map[string]bool
+	// round 4: per-program switches of shapes behind which a recorded finding sits (kept to a small share of
+	// the programs, so that the search goes on in the others)
+	octal    bool   // some literals are written in Go's legacy octal form (017)
+	permMake bool   // the Make calls of main's outputs/inputs do not follow the declaration order
+	emitter  string // a function that writes an output, called as a statement from main ("" = none)
 }
 
 type gfunc struct {
@@ -111,6 +122,25 @@ func (g *pgen) lit() string {
 	max := uint64(1)<<uint(g.rsize) - 1
 	if g.rsize >= 32 {
 		max = 1<<31 - 1 // rset takes the literal through an int; larger constants are another property's subject (C03)
+	}
+	if g.octal && g.pct(25, "octal") {
+		// 010 … 0177: Go reads base eight; the decimal reading of the same digits also fits eight bits
+		return fmt.Sprintf("0%o", 8+g.uni(120, "octalval"))
+	}
+	if g.pct(5, "litform") {
+		// the other spellings of an integer literal
+		v := rapid.Uint64Range(0, 12).Draw(g.t, "lit")
+		if g.pct(30, "litbig") {
+			v = rapid.Uint64Range(max/2, max).Draw(g.t, "lit")
+		}
+		switch g.uni(3, "litspelling") {
+		case 0:
+			return fmt.Sprintf("0x%X", v)
+		case 1:
+			return fmt.Sprintf("0b%b", v)
+		default:
+			return fmt.Sprintf("0%d", v%8) // a leading zero that changes nothing: 00 … 07
+		}
 	}
 	switch g.uni(10, "litclass") {
 	case 0:
@@ -313,13 +343,17 @@ func (g *pgen) expr(depth int) string {
 	}
 }
 
+// isLit: an integer literal in any spelling (decimal, 017, 0x1F, 0b101)
 func isLit(s string) bool {
+	if s == "" || s[0] < '0' || s[0] > '9' {
+		return false
+	}
 	for _, r := range s {
-		if r < '0' || r > '9' {
+		if !(r >= '0' && r <= '9' || r >= 'a' && r <= 'f' || r >= 'A' && r <= 'F' || r == 'x' || r == 'X') {
 			return false
 		}
 	}
-	return s != ""
+	return true
 }
 
 func (g *pgen) nonLit(depth int) string {
@@ -371,8 +405,19 @@ func (g *pgen) stmt(c stmtCtx) {
 		k = k % 62
 	}
 	switch {
-	case k < 26: // assignment
+	case k < 24: // assignment
 		g.emit("%s = %s", g.pickVal().name, g.expr(2))
+	case k < 26: // a value function called as a statement: the result is discarded, nothing observable happens
+		if len(g.funcs) == 0 {
+			g.emit("%s = %s", g.pickVal().name, g.expr(2))
+			return
+		}
+		f := g.funcs[g.uni(len(g.funcs), "fnstmt")]
+		var args []string
+		for i := 0; i < f.nparams; i++ {
+			args = append(args, g.expr(1))
+		}
+		g.emit("%s(%s)", f.name, strings.Join(args, ", "))
 	case k < 30: // a nested scope that shadows a visible name
 		if c.depth >= 3 {
 			g.emit("%s = %s", g.pickVal().name, g.expr(2))
@@ -490,6 +535,18 @@ func (g *pgen) stmt(c stmtCtx) {
 		g.emit("}")
 	case k < 90: // switch with tag
 		if g.o.Faithful && !g.pct(20, "switchInFaithful") {
+			if g.pct(35, "defaultOnlySwitch") {
+				// a switch with nothing but a default clause compiles to jumps only (no comparison): inside the faithful set
+				g.emit("switch %s {", g.expr(1))
+				rc := g.pushCtx()
+				g.emit("default:")
+				g.ind++
+				g.caseBody(c)
+				g.ind--
+				rc()
+				g.emit("}")
+				return
+			}
 			g.emit("%s = %s", g.pickVal().name, g.expr(2))
 			return
 		}
@@ -499,7 +556,10 @@ func (g *pgen) stmt(c stmtCtx) {
 		for i := 0; i < ncase; i++ {
 			g.emit("case %s:", g.lit())
 			g.ind++
-			g.caseBody(c)
+			if g.caseBody(c) {
+				g.ind--
+				continue
+			}
 			if i+1 < ncase && g.pct(15, "fallthrough") {
 				g.emit("fallthrough")
 			}
@@ -559,7 +619,29 @@ func (g *pgen) stmt(c stmtCtx) {
 }
 
 // case bodies have no scope of their own in the compiler: only plain statements, no declarations
-func (g *pgen) caseBody(c stmtCtx) {
+// It reports whether the body ends in a break.
+func (g *pgen) caseBody(c stmtCtx) (endsInBreak bool) {
+	defer func() {
+		// an unlabelled break inside a clause ends the switch (Go). Inside a loop the compiler makes it leave
+		// the loop (recorded finding); outside any loop it refuses it
+		if !(g.inLoop > 0 && g.pct(20, "switchbreak")) && !(g.inLoop == 0 && g.pct(3, "switchbreakNoLoop")) {
+			return
+		}
+		if g.pct(50, "switchbreakGuarded") {
+			g.emit("if %s {", g.cond())
+			rc := g.pushCtx()
+			g.ind++
+			g.emit("break")
+			g.ind--
+			rc()
+			g.emit("}")
+			v := g.pickVal()
+			g.emit("%s = %s + %s", v.name, v.name, g.lit())
+			return
+		}
+		g.emit("break")
+		endsInBreak = true
+	}()
 	n := rapid.IntRange(1, 2).Draw(g.t, "ncasebody")
 	for i := 0; i < n; i++ {
 		switch g.uni(4, "casestmt") {
@@ -580,6 +662,7 @@ func (g *pgen) caseBody(c stmtCtx) {
 			g.emit("%s = %s", g.pickVal().name, g.expr(2))
 		}
 	}
+	return false
 }
 
 func (g *pgen) valueFunc() {
@@ -622,7 +705,7 @@ func (g *pgen) valueFunc() {
 }
 
 // routine emits a body that declares its IO and variables and ends in the endless writing loop.
-func (g *pgen) routine(gidOut []int, gidIn []int, extra func()) {
+func (g *pgen) routine(main bool, gidOut []int, gidIn []int, extra func()) {
 	g.vals, g.outs, g.ins = nil, nil, nil
 	g.scopes = []gscope{{g.fresh(), g.fresh()}}
 	restore := g.pushBlock()
@@ -650,14 +733,29 @@ func (g *pgen) routine(gidOut []int, gidIn []int, extra func()) {
 			g.vals = append(g.vals, gvar{v, g.top().m})
 		}
 	}
-	for i, o := range g.outs {
-		g.emit("%s = bondgo.Make(bondgo.Output, %d)", o, gidOut[i])
+	// the Make calls, in declaration order unless the program is of the permuted kind (a rotation: never the identity)
+	order := func(n int) []int {
+		r := make([]int, n)
+		rot := 0
+		if g.permMake && main && n >= 2 {
+			rot = 1 + g.uni(n-1, "makerot")
+		}
+		for i := range r {
+			r[i] = (i + rot) % n
+		}
+		return r
 	}
-	for i, in := range g.ins {
-		g.emit("%s = bondgo.Make(bondgo.Input, %d)", in, gidIn[i])
+	for _, i := range order(len(g.outs)) {
+		g.emit("%s = bondgo.Make(bondgo.Output, %d)", g.outs[i], gidOut[i])
+	}
+	for _, i := range order(len(g.ins)) {
+		g.emit("%s = bondgo.Make(bondgo.Input, %d)", g.ins[i], gidIn[i])
 	}
 	if extra != nil {
 		extra()
+	}
+	if main && g.emitter != "" && g.pct(40, "emitInPrologue") {
+		g.emit("%s(%s)", g.emitter, g.expr(1))
 	}
 	for i, n := 0, rapid.IntRange(0, 5).Draw(g.t, "nprologue"); i < n; i++ {
 		g.stmt(stmtCtx{depth: 0})
@@ -683,6 +781,9 @@ func (g *pgen) routine(gidOut []int, gidIn []int, extra func()) {
 		sumLast := g.pct(30, "sumlast")
 		if !sumLast {
 			sum()
+		}
+		if main && g.emitter != "" {
+			g.emit("%s(%s)", g.emitter, g.expr(1))
 		}
 		v := g.vals[rapid.IntRange(0, nreg-1).Draw(g.t, "ctr")]
 		switch g.uni(3, "advance") {
@@ -722,12 +823,24 @@ func GenProgram(t *rapid.T, o GenOpts, rsize int) (src string, mpm bool) {
 	} else {
 		g.mpm = g.pct(35, "mpm")
 	}
+	g.octal = g.pct(6, "octalProgram")
 	for i, n := 0, rapid.IntRange(0, 2).Draw(t, "nfuncs"); i < n; i++ {
 		g.valueFunc()
 	}
-	// global ids: outputs 1..9 distinct, inputs 11..14 (disjoint: an id used on both sides is a processor-to-processor bond)
+	// global ids: outputs 1..9 distinct, inputs 11.. (disjoint: an id used on both sides is a processor-to-processor bond)
 	gids := rapid.Permutation([]int{1, 2, 3, 4, 5, 6, 7, 8, 9}).Draw(t, "gids")
 	take := func(n int) []int { r := gids[:n]; gids = gids[n:]; return r }
+	if g.pct(4, "emitter") {
+		// a function with a side effect (it writes an output of its own), called as a statement from main
+		name := g.newName("e")
+		g.emit("func %s(v %s) {", name, g.typ)
+		g.emit("\tvar oute bondgo.Output")
+		g.emit("\toute = bondgo.Make(bondgo.Output, %d)", take(1)[0])
+		g.emit("\tbondgo.IOWrite(oute, v)")
+		g.emit("}")
+		g.emit("")
+		g.emitter = name
+	}
 	type worker struct {
 		name string
 		kind string // plain, chan, value
@@ -743,6 +856,9 @@ func GenProgram(t *rapid.T, o GenOpts, rsize int) (src string, mpm bool) {
 					kind = "chan"
 				case 3:
 					kind = "value"
+					if g.pct(50, "twovalueargs") {
+						kind = "value2" // two by-value arguments: the recorded map-order finding
+					}
 				}
 			}
 			w := worker{g.newName("w"), kind}
@@ -750,7 +866,7 @@ func GenProgram(t *rapid.T, o GenOpts, rsize int) (src string, mpm bool) {
 			switch kind {
 			case "plain":
 				g.emit("func %s() {", w.name)
-				g.routine(take(1), nil, nil)
+				g.routine(false, take(1), nil, nil)
 				g.emit("}")
 			case "chan":
 				g.emit("func %s(c chan %s) {", w.name, g.typ)
@@ -761,14 +877,22 @@ func GenProgram(t *rapid.T, o GenOpts, rsize int) (src string, mpm bool) {
 				g.emit("\t\treg_p++")
 				g.emit("\t}")
 				g.emit("}")
-			case "value":
-				g.emit("func %s(k %s) {", w.name, g.typ)
+			case "value", "value2":
+				if kind == "value" {
+					g.emit("func %s(k %s) {", w.name, g.typ)
+				} else {
+					g.emit("func %s(k %s, j %s) {", w.name, g.typ, g.typ)
+				}
 				g.emit("\tvar outw bondgo.Output")
 				g.emit("\tvar reg_p %s", g.typ)
 				g.emit("\toutw = bondgo.Make(bondgo.Output, %d)", take(1)[0])
 				g.emit("\treg_p = k")
 				g.emit("\tfor {")
-				g.emit("\t\treg_p++")
+				if kind == "value" {
+					g.emit("\t\treg_p++")
+				} else {
+					g.emit("\t\treg_p = reg_p + j")
+				}
 				g.emit("\t\tbondgo.IOWrite(outw, reg_p)")
 				g.emit("\t}")
 				g.emit("}")
@@ -777,13 +901,30 @@ func GenProgram(t *rapid.T, o GenOpts, rsize int) (src string, mpm bool) {
 		}
 	}
 	nout := rapid.IntRange(1, 2).Draw(t, "nout")
+	if g.pct(8, "manyout") {
+		nout = 3 + g.uni(3, "nmanyout") // 3 … 5 (nine ids, at most two for the workers, one for the emitter)
+	}
 	nin := 0
 	if g.pct(30, "hasin") {
 		nin = rapid.IntRange(1, 2).Draw(t, "nin")
+		if g.pct(25, "manyin") {
+			nin = 3 + g.uni(6, "nmanyin") // 3 … 8: every declaration and every Make keeps one of the 16 local ids
+		}
 	}
-	ing := []int{11, 12, 13, 14}[:nin]
+	if g.pct(2, "ioIdsExhausted") {
+		// more than eight inputs: the recorded termination finding (kept out of the ordinary cases by construction)
+		nin = 9 + g.uni(2, "nexhaust")
+	}
+	g.permMake = g.pct(8, "permMake")
+	if g.permMake && nout < 2 {
+		nout = 2
+	}
+	var ing []int
+	for i := 0; i < nin; i++ {
+		ing = append(ing, 11+i) // c12_test.go firstInGid …
+	}
 	g.emit("func main() {")
-	g.routine(take(nout), ing, func() {
+	g.routine(true, take(nout), ing, func() {
 		for _, w := range workers {
 			switch w.kind {
 			case "plain":
@@ -795,6 +936,8 @@ func GenProgram(t *rapid.T, o GenOpts, rsize int) (src string, mpm bool) {
 				g.emit("%s = <-%s", g.vals[0].name, ch)
 			case "value":
 				g.emit("go %s(%s)", w.name, g.lit())
+			case "value2":
+				g.emit("go %s(%s, %s)", w.name, g.lit(), g.lit())
 			}
 		}
 	})
